@@ -60,3 +60,25 @@ PROPS['C01'] = dict(
     technique='exhaustive execution of the real code against a reference-model monitor (odometer calendar), release + debug-assertion builds',
     design_ref='DESIGN.md section 4, C01',
 )
+
+TZ_ASSUME = COMMON_ASSUME + [
+    'the tz reference model (harness/src/tzref.rs: RFC 8536 reader + POSIX TZ rule evaluator) is believed for a zone only when glibc zdump or CPython zoneinfo agree with it on that zone (counters zones_corroborated / zones_uncorroborated); uncorroborated zones give no verdict',
+    'zic 2.36, zdump 2.36 and CPython 3.11 zoneinfo are independent of jiff',
+]
+
+PROPS['C03'] = dict(
+    sub='c03',
+    prep=['synth'],
+    quick=[S('rel'), S('dbg', 'zone_stride=4')],
+    thorough=[S('rel'), S('dbg')],
+    rule='zones: every TZif file of /usr/share/zoneinfo (main tree), every bundled jiff-tzdb zone, hand-written + seeded synthetic zones compiled with zic -b slim and -b fat, '
+         'fixed and seeded POSIX TZ strings, fixed offsets. Per zone: every explicit transition T and the rule transitions of the probe years (quick: 1900-2100 + 50 seeded years; thorough: all of -9999..9999) '
+         'probed at T-2s+1ns, T-1s, T-1/2s, T-1ns, T, T+1ns, T+1s-1ns, T+1s plus range limits and seeded instants, through to_offset_info/to_offset/to_datetime/Zoned::new/strftime. '
+         'distinct_nontrivial = distinct (zone, T) pairs where the corroborated model says offset, DST flag or abbreviation really changes at T',
+    floors={'any': {'zones_corroborated': 1000, 'model_change_instants_probed': 100000, 'synthetic_zones': 40}},
+    assumptions=TZ_ASSUME,
+    level_text='Reference-model monitoring at the API boundary: jiff\'s answers (offset, DST flag, abbreviation, civil time, strftime) at instants bracketing every transition of ~1300 zone files and hundreds of generated POSIX rules are compared with an independent RFC 8536/POSIX evaluator that is itself cross-checked against zdump and CPython zoneinfo on every run. Interior instants of constant segments are only sampled.',
+    level_note='Trusted base: harness/src/tzref.rs + cal.rs, corroborated per zone by zdump/zoneinfo; zic for the synthetic zones. jiff upper-cases %Z by design, compared case-insensitively. Known finding D10 (POSIX rule transitions that fall into the adjacent UTC year) is listed in known_findings.json.',
+    technique='reference-model monitor over boundary-biased probe instants; release + debug-assertion builds; model corroborated by zdump and CPython zoneinfo',
+    design_ref='DESIGN.md section 4, C03',
+)
